@@ -99,10 +99,13 @@ def restart_guard(B, bb):
     """visited-stack idiom: the recursive call in block bb is dominated by (1) the false arm of a membership test
     (`iter().any(..)` / `contains`) over a field F of a `&mut` document parameter and (2) a later `push` onto the same F."""
     pushes = []
+    push_roots = {}
     for pbb, pt in B.calls_to("Vec::<T, A>::push"):
         fs = [tuple(o.fields()) for o in M.trace(B, pt["args"][0], ()) if o.kind == "arg"]
         if fs and B.dominates(pbb, bb) and pbb != bb:
             pushes.append((pbb, fs[0]))
+            roots, _ = M.slice_info(B, pt["args"][1])
+            push_roots[pbb] = {r for r in roots if r[0] in ("arg", "upvar")}
     if not pushes:
         return False, "no push onto a visited-stack dominates the call"
     for tbb, tt in B.calls():
@@ -120,6 +123,21 @@ def restart_guard(B, bb):
         if sw.get("k") != "switch":
             continue
         false_t = [tgt for v, tgt in sw["targets"] if v == 0]
+        # (3) the value tested must be the value pushed: same roots (a test on one key and a push of another never meet)
+        test_roots = set()
+        for a in tt["args"][1:]:
+            for o in M.trace(B, a, ()):
+                if o.kind == "aggregate" and o.rv.get("closure"):
+                    for cap in o.rv["ops"]:
+                        r, _ = M.slice_info(B, cap)
+                        test_roots |= {x for x in r if x[0] in ("arg", "upvar")}
+                else:
+                    r, _ = M.slice_info(B, a)
+                    test_roots |= {x for x in r if x[0] in ("arg", "upvar")}
+        same_key = any(push_roots.get(pbb) == test_roots for pbb, _ in pushes)
+        if false_t and not same_key:
+            why_not = f"the membership test looks at {sorted(test_roots)} but the value pushed derives from {[sorted(v) for v in push_roots.values()]}"
+            return False, why_not
         if false_t and B.dominates(false_t[0], bb) and any(B.dominates(false_t[0], pbb) for pbb, _ in pushes):
             # the true arm must not reach the call
             true_t = sw["otherwise"]
